@@ -113,7 +113,7 @@ def build(tier="quick", seed=0):
                         ri = spec_value_owner(per_record, replace, n)
                         j = [nm for _, nm in per_record[ri]].index(n)
                         v = got_vals[n]
-                        if it.type_name(v) != t.split(".")[-1] and it.type_name(v) != {"net.tcp.Port": "Port", "net.udp.Port": "Port"}.get(t, t):
+                        if it.type_name(v) != t.split(".")[-1] and it.type_name(v) != {"net.tcp.Port": "port", "net.udp.Port": "port"}.get(t, t):
                             return False, f"field {n} holds a {it.type_name(v)}, the rule gives type {t}"
                         conj.append(it.zint(v) == vals[(ri * k + j) % len(vals)])
                     return z3.And(*conj) if conj else True, f"records {per_record} (replace={replace}): a value is not the one of the {'last' if replace else 'first'} record that has the field"
